@@ -26,6 +26,9 @@ def run(s):
 
     def on_pair_state(ro, cur, ev):
         acc.sweep(s, ro, cur, {'workload': 'pair-history'}, after=(ev or {}).get('msg_cls'))
+    for i_ in range(150 if q else 6000):
+        if s.mine(i_):
+            acc.interleaved(s, i_)
     K.pair_histories(s, timing='any', text='hostile', on_state=on_pair_state)
     n = 150 if q else 12000
     w = K.kind_weights(1.0, 0.5, 0.4, 0.02)
